@@ -95,6 +95,17 @@ def container(draw, paths, wd="", spellings=(0, 1, 2, 3, 4), shapes=tuple(range(
 
 # ---------------------------------------------------------------- workflows
 
+def short_spec(name):
+    """A one- or two-line script: mostly newline-terminated, sometimes not (a one-liner given as a plain string),
+    sometimes using shell variables and braces that look like the place-holders of a backend's script template."""
+    return st.sampled_from([
+        f"echo run {name}\n", f"echo run {name}\n", f"echo run {name}\n", f"echo run {name}\n",
+        f"echo run {name}",
+        f"echo run {name} ${{cores}} ${{memory}} {{job_name}} {{std_out}} {{queue}}\n",
+        f"echo run {name}; echo '{{cores}} {{std_err}}'",
+    ])
+
+
 @st.composite
 def wellformed(draw, max_targets=6, max_files=8, spellings=(0, 1, 2, 3, 4), shapes=tuple(range(N_SHAPES)),
                ticks=5, allow_missing_outputs=True, wds=(None,), min_targets=1, protect=False,
@@ -127,7 +138,7 @@ def wellformed(draw, max_targets=6, max_files=8, spellings=(0, 1, 2, 3, 4), shap
             "name": names[i],
             "inputs": draw(container(ins, wd or "", spellings, shapes)),
             "outputs": draw(container(outs, wd or "", spellings, shapes)),
-            "spec": f"echo run {names[i]}\n" if specs == "short" else draw(specs),
+            "spec": draw(short_spec(names[i])) if specs == "short" else draw(specs),
             "wd": wd,
         }
         if wf_wd is not None:
